@@ -63,6 +63,15 @@ theorem duplicate_dict_keys_order_changes :
     (C15.build (C15.keepLast [(0, 1), (1, 2), (0, 3)])).map (·.1) ≠ (C15.build [(0, 1), (1, 2), (0, 3)]).map (·.1) :=
   C15.order_counterexample
 
+/-- `fixes.unused_zip_args` (`for a, _ in zip(x, y)` → `for a in x`): what the loop sees is unchanged **when the dropped
+argument is at least as long** … -/
+theorem unused_zip_arg_sound {α β : Type} (a : List α) (b : List β) (h : a.length ≤ b.length) :
+    (a.zip b).map (·.1) = a := List.map_fst_zip h
+
+/-- … and not otherwise: `zip('abc', 'x')` stops after one element (recorded finding `zip-truncation`; the rule has no
+way of knowing the lengths, the repository's own unit test expects the rewrite) -/
+theorem unused_zip_arg_truncates : (['a', 'b', 'c'].zip ['x']).map (·.1) ≠ ['a', 'b', 'c'] := by decide
+
 /-- `remove_duplicate_set_elts` keeps the first occurrence of every constant, which is the set Python builds, in its order -/
 theorem duplicate_set_elts_sound {κ : Type} [DecidableEq κ] (l : List κ) : C15.buildS l = C15.keepFirst [] l :=
   C15.keepFirst_build l
